@@ -15,6 +15,9 @@ import _execlib
 
 def run(ctx):
     _execlib.run_exec(ctx, "C02")
+    # real operators with an in-place path (Slice with mixed steps, Clip with omitted bounds, broadcast
+    # binary operators, layout operators, ...) under owned/borrowed inputs, extra requested outputs, pools
+    _execlib.run_realops(ctx, "C02")
     # real operators: MatMul with constant weights (chained, inside If branches, shared with a transposed
     # use), prepacking on/off x optimisation on/off x thread pools, judged against integer products in TLA+
     # and MatMulInteger with a constant i8 weight packed at load time, before the scalar / per-column zero
